@@ -19,10 +19,10 @@ REQUIRED_THEOREMS = ["overshoot_le_one_alloc", "thr_is_twice_survivors", "no_unb
                      "collect_complete", "sweep_bytes"]
 # the state the models abstract is all the state there is: the fields of the run-time structures, regenerated on every run, are the ones
 # the models were written against (Props/StateInventory)
-THEOREM_MODULES.append("Yarel.Props.StateInventory")
+THEOREM_MODULES.append("Yarel.Props.StateInventory.state_of_heap")
 REQUIRED_THEOREMS += ['state_of_heap']
 # who writes the state the mechanism models are about: the set of write sites per group of fields, regenerated on every run (Props/StateWrites)
-THEOREM_MODULES.append("Yarel.Props.StateWrites")
+THEOREM_MODULES.append("Yarel.Props.StateWrites.writers_of_heap_accounting")
 REQUIRED_THEOREMS += ['writers_of_heap_accounting']
 LEVEL = "proof"
 ASSUMPTIONS = [
